@@ -7,7 +7,7 @@ use_formula_memo()
 
 POOL = ["x", "y", "q"]
 OPS = ["new_cells", "set ref", "new_space", "delete", "rename cells", "B.add_bases(A)", "B.remove_bases(A)", "model ref", "model space",
-       "set_ref absolute", "rename space"]
+       "set_ref absolute", "rename space", "model.new_space('N', bases=[A, B2]) / [B, B2] when B inherits A", "A.add_bases(Z) (A may have sub spaces B, B2)"]
 SPECIAL = {"__builtins__", "_model", "_self", "_space"}
 
 
@@ -66,8 +66,8 @@ def _inv(m, what):
     return check(sane, "library self-check (%s)" % what)
 
 
-def _do(m, op, tgt, ni, v):
-    sp = m.spaces["A"] if tgt == 0 else m.spaces["B"] if tgt == 1 else m.spaces["A"].spaces["Ch"]
+def _do(m, op, tgt, ni, v, inh=False):
+    sp = m.spaces["A"] if tgt == 0 else m.spaces["B"] if tgt == 1 else m.spaces["A"].spaces["Ch"] if tgt == 2 else m.spaces["B2"] if tgt == 3 else m.spaces["Z"]
     name = POOL[ni]
     if op == 0:
         return call(sp.new_cells, name, formula="lambda: 1")
@@ -91,6 +91,11 @@ def _do(m, op, tgt, ni, v):
         return call(sp.set_ref, name, v, "absolute")
     if op == 10:
         return call(lambda: sp.spaces[name].rename(POOL[(ni + 1) % 3]))
+    if op == 12:
+        return call(m.spaces["A"].add_bases, m.spaces["Z"])
+    if op == 11:
+        first = m.spaces["B"] if inh else m.spaces["A"]
+        return call(m.new_space, "N", bases=[first, m.spaces["B2"]])
     raise ValueError(op)
 
 
@@ -102,6 +107,8 @@ def history(v: int, inh: bool, o1: int, t1: int, n1: int, o2: int, t2: int, n2: 
         A = m.new_space("A")
         A.new_space("Ch")
         B = m.new_space("B", bases=A) if inh else m.new_space("B")
+        B2 = m.new_space("B2", bases=A) if inh else m.new_space("B2")       # a second (sibling) sub space
+        Z = m.new_space("Z")                                                  # a space that can become a base of A
     label("B inherits A" if inh else "B independent")
     if not _inv(m, "initial"):
         return False
@@ -109,10 +116,12 @@ def history(v: int, inh: bool, o1: int, t1: int, n1: int, o2: int, t2: int, n2: 
         o = pick(o, -1, len(OPS) - 1)
         if o < 0:
             break
-        t = pick(t, 0, 2) if o not in (5, 6, 7, 8) else 0
-        n = pick(n, 0, 2) if o not in (5, 6) else 0
-        r = _do(m, o, t, n, v)
-        label("%s %s %s -> %s" % (OPS[o], ("A", "B", "A.Ch")[t] if o not in (5, 6, 7, 8) else "", POOL[n] if o not in (5, 6) else "", "ok" if r[0] == "ok" else r[1]))
+        t = pick(t, 0, 4) if o not in (5, 6, 7, 8, 11, 12) else 0
+        n = pick(n, 0, 2) if o not in (5, 6, 11, 12) else 0
+        if o == 11 and "N" in m.spaces:
+            return True
+        r = _do(m, o, t, n, v, inh)
+        label("%s %s %s -> %s" % (OPS[o], ("A", "B", "A.Ch", "B2", "Z")[t] if o not in (5, 6, 7, 8, 11, 12) else "", POOL[n] if o not in (5, 6, 11, 12) else "", "ok" if r[0] == "ok" else r[1]))
         if not _inv(m, "after step %d" % (i + 1)):
             return False
     return True
@@ -123,19 +132,21 @@ NO = len(OPS)
 
 def _parts(tier, seed):
     if tier == "quick":
-        return [dict(o1=a, o2=[0, NO - 1], o3=-1) for a in range(NO)] + [dict(inh=False, o1=a, o2=b, o3=5) for a in (0, 1, 2) for b in (0, 1, 2)]
+        return [dict(o1=a, o2=[lo, hi], o3=-1) for a in range(NO) for (lo, hi) in ((0, 5), (6, NO - 1))] + [dict(inh=False, o1=a, o2=b, o3=5) for a in (0, 1, 2) for b in (0, 1, 2)] + \
+               [dict(o1=a, o2=b, o3=c, t1=ta, t2=tb) for (a, ta, b, tb, c) in ((0, 0, 1, 3, 11), (1, 0, 0, 3, 11), (0, 1, 1, 3, 0), (1, 1, 0, 3, 0), (0, 1, 7, 0, 1), (2, 1, 7, 0, 1), (1, 1, 0, 4, 12), (0, 4, 2, 3, 12), (0, 4, 1, 0, 12))]
     return [dict(o1=a, o2=b, o3=[-1, NO - 1], n3=[0, 1]) for a in range(NO) for b in range(NO)]
 
 
 QUERIES = [
     Query("history", history,
-          pre=["-1 <= o1 < %d" % NO, "-1 <= o2 < %d" % NO, "-1 <= o3 < %d" % NO, "0 <= t1 < 3", "0 <= t2 < 3", "0 <= t3 < 3",
+          pre=["-1 <= o1 < %d" % NO, "-1 <= o2 < %d" % NO, "-1 <= o3 < %d" % NO, "0 <= t1 < 5", "0 <= t2 < 5", "0 <= t3 < 5",
                "n1 == 0", "0 <= n2 < 2", "0 <= n3 < 3"],      # names are interchangeable: first name is x, second x or y (symmetry reduction)
           partitions=_parts,
           natives=[dict(v=5, inh=i, o1=a, t1=ta, n1=na, o2=b, t2=tb, n2=nb, o3=c, t3=0, n3=0) for (i, a, ta, na, b, tb, nb, c) in
                    ((True, 0, 0, 0, 1, 1, 0, -1), (False, 1, 1, 0, 0, 0, 0, 5), (True, 2, 0, 1, 0, 1, 1, -1), (False, 7, 0, 0, 0, 0, 0, 3),
-                    (True, 0, 0, 0, 4, 0, 0, 6), (False, 8, 0, 0, 7, 0, 0, -1), (True, 1, 0, 2, 3, 0, 2, 1), (False, 2, 1, 0, 10, 1, 0, -1))],
-          bounds=lambda tier: {"spaces": "A, A.Ch, B (B inherits A or not)", "name_pool": POOL, "symmetry": "first operation uses name x, second x or y (names are interchangeable)", "operations": OPS, "history_length": 2 if tier == "quick" else 3},
+                    (True, 0, 0, 0, 4, 0, 0, 6), (False, 8, 0, 0, 7, 0, 0, -1), (True, 1, 0, 2, 3, 0, 2, 1), (False, 2, 1, 0, 10, 1, 0, -1),
+                    (False, 0, 0, 0, 1, 3, 0, 11), (True, 0, 1, 0, 1, 3, 0, 0), (True, 0, 1, 0, 7, 0, 0, 1), (True, 1, 1, 0, 0, 4, 0, 12), (True, 0, 4, 0, 2, 3, 0, 12))],
+          bounds=lambda tier: {"spaces": "A, A.Ch, B, B2 (B and B2 inherit A or not), Z (can become a base of A)", "name_pool": POOL, "symmetry": "first operation uses name x, second x or y (names are interchangeable)", "operations": OPS, "history_length": 2 if tier == "quick" else 3},
           outside=["histories longer than 3", "names outside the pool", "ItemSpaces"]),
 ]
 BUDGET = {"quick": 420, "thorough": 1200}
